@@ -130,6 +130,13 @@ func (f *FragmentBuffer) pushHandshakeFragments(
 		frag.data = bytes.Clone(buf[handshake.HeaderLength:end])
 		frag.recordLayerHeader = recordLayerHeader
 
+		if existing, found := messageFragments.fragmentByOffset[frag.handshakeHeader.FragmentOffset]; found &&
+			len(existing.data) == 0 && len(frag.data) != 0 {
+			// A zero-length fragment must not shadow the data fragment that starts
+			// at the same offset: forget it and take the data fragment below.
+			delete(messageFragments.fragmentByOffset, frag.handshakeHeader.FragmentOffset)
+			f.totalFragmentCount--
+		}
 		if _, ok = messageFragments.fragmentByOffset[frag.handshakeHeader.FragmentOffset]; !ok {
 			messageFragments.fragmentByOffset[frag.handshakeHeader.FragmentOffset] = frag
 			messageFragments.fragmentsLength += frag.handshakeHeader.FragmentLength
